@@ -1,17 +1,26 @@
 #!/bin/bash
-# usage: ./run_seed_matrix.sh [property ids...]   (default: all)
+# usage: ./run_seed_matrix.sh [--fast] [property ids...]   (default: all properties, full quick checks)
 # Runs every seeded change against the quick check of the property it breaks (through scratch worktrees, /repo is
 # left alone) and prints one line per seed.  Expected: exit 1 (VIOLATION) except for the seeds whose meta.json says
-# "not caught" / "void".  NOTE: rewrites evidence/<id>.json with results from the seeded trees - regenerate the
+# "not caught" / "void" (filters.json: null).  --fast restricts each run to the cases recorded as catching the seed
+# (seeded/filters.json).  NOTE: rewrites evidence/<id>.json with results from the seeded trees - regenerate the
 # evidence (run_quick_all.sh) afterwards.
 cd /verif
+fast=0; if [ "$1" = "--fast" ]; then fast=1; shift; fi
 ids="$*"
 for d in /verif/seeded/*/; do
   n=$(basename $d); id=${n%%_*}
   if [ -n "$ids" ] && ! echo " $ids " | grep -q " $id "; then continue; fi
-  out=$(./seedtest_wt.sh $d/patch.diff $id --tier quick 2>&1 | tail -1)
+  extra=()
+  if [ $fast = 1 ]; then
+    pat=$(python3 -c "import json,sys; v=json.load(open('/verif/seeded/filters.json')).get('$n'); print('' if v is None else v)")
+    if [ -z "$pat" ]; then echo "$n skipped (recorded as not caught / void)"; continue; fi
+    extra=(--only "$pat")
+  fi
+  out=$(./seedtest_wt.sh $d/patch.diff $id --tier quick "${extra[@]}" 2>&1 | tail -1)
   nv=$(grep -c "^VIOLATION" /tmp/seedtest_wt.$id.log 2>/dev/null)
   nc=$(grep -c "counterexample" /tmp/seedtest_wt.$id.log 2>/dev/null)
   he=$(grep -c "^HARNESS-ERROR" /tmp/seedtest_wt.$id.log 2>/dev/null)
-  echo "$n $out violations=$nv counterexamples=$nc harness_errors=$he $(date -u +%T)"
+  tot=$(grep -E "^== $id: " /tmp/seedtest_wt.$id.log | grep -o "conditions=[0-9]*")
+  echo "$n $out $tot violations=$nv counterexamples=$nc harness_errors=$he $(date -u +%T)"
 done
